@@ -9,7 +9,9 @@ Input : [timeout, [stop instant, ...], broken, suppress, store, nObs, setUp, bod
                ['same', k]: the stage returns the very Deferred object that the k-th stage started in this run returned
                v = a value token of harness/props/c15.py (objects with a hostile ==, falsy values; no v = None): what the stage returns /
                its Deferred fires with.  The model never looks at it.
-  k          = err | fail | skip | ki (KeyboardInterrupt) | exit (SystemExit) | genexit (GeneratorExit)
+  k          = err | fail | skip | ki (KeyboardInterrupt) | exit (SystemExit) | genexit (GeneratorExit), each also as k-nobool / k-nolen:
+               the exception INSTANCE is falsy (a subclass whose __bool__ returns False / whose __len__ returns 0 - an "empty aggregate"
+               exception).  The model never looks at it.
 Trace : [events, stopRequested, raised, [[name, time, observers], ...], [live, ...], leftover, pending, obsRestored, realStops, finalTime]
 (see TTV/Drv/C14.lean).  The interrupts are `reactor.stop()` calls scheduled before `case.run(result)`.
 """
@@ -19,7 +21,38 @@ from harness.props.c15 import VALUES, VALUE_NAMES, value_of      # the value tok
 
 EXC = ['err', 'fail', 'skip']
 UNCLAIMED = ['ki', 'exit', 'genexit']                       # KeyboardInterrupt, SystemExit, GeneratorExit
+TRUTH = ['', '-nobool', '-nolen']                           # suffix of k: the truth value of the exception instance (seed C14-h)
+_FALSY = {}
+
+
+def base_of(k):
+    return k.partition('-')[0]
+
+
+def falsy(cls, truth):
+    """the subclass of `cls` whose instances are falsy: by __bool__ ('-nobool') or by __len__ ('-nolen')"""
+    if not truth:
+        return cls
+    if (cls, truth) not in _FALSY:
+        how = {'__bool__': lambda self: False} if truth == '-nobool' else {'__len__': lambda self: 0}
+        _FALSY[cls, truth] = type(cls.__name__ + {'-nobool': 'NoBool', '-nolen': 'Empty'}[truth], (cls,), how)
+    return _FALSY[cls, truth]
 CLEANUP_KW = ['f', None, 'fn', 'function', 'self', 'args', 'kwargs', 'x']   # names of the keyword argument of a cleanup (None: none)
+
+
+def cleanup_kws(n, T):
+    """the names of the keyword arguments of cleanup number n of a run with timeout T: none, or one of the fixed names above (the floor)
+    plus one of the further names of harness/kwnames.py - the parameter names, read with inspect from the tree under test, of every
+    function a cleanup's arguments travel through (addCleanup, _run_cleanups, the runners' _run_user, maybeDeferred, _got_user_exception,
+    _got_user_failure): a renamed parameter on that path is followed"""
+    from harness import kwnames
+    i = n + T
+    floor = CLEANUP_KW[i % len(CLEANUP_KW)]
+    if floor is None:
+        return []
+    more = [k for k in kwnames.names() if k not in CLEANUP_KW]
+    used = sum(CLEANUP_KW[j % len(CLEANUP_KW)] is not None for j in range(i))        # every further name gets its turn
+    return [floor] + ([more[used % len(more)]] if more else [])
 REAL_UNIT = 0.04                                            # seconds per time unit in the real-reactor scenarios
 
 
@@ -85,10 +118,16 @@ class C14(Prop):
         'call (emitted synchronously by the stage with the reactor\'s namespace and format; a delayed call that actually raises is not '
         'generated: harness/vreactor.py has an exception barrier, it does not log); the model does not distinguish routes; every quick run '
         'covers route x store_twisted_logs x suppress_twisted_logging x runner variant x stage',
-        'cleanups are registered with positional and one keyword argument whose name cycles (by registration number + timeout) through '
-        'f, fn, function, self, args, kwargs, x and none - names of parameters of the functions the arguments travel through '
-        '(maybeDeferred(f, ...), _run_user(function, ...), addCleanup(fn, ...)); the cleanup checks that it receives exactly them; the '
-        'model ignores arguments',
+        'every exception kind (err, fail, skip, KeyboardInterrupt, SystemExit, GeneratorExit) also comes as a subclass whose INSTANCE is '
+        'falsy - by __bool__ returning False (k-nobool) and by __len__ returning 0 (k-nolen), an "empty aggregate" exception - raised by a '
+        'stage, failing an already-failed Deferred or one that fails later, in every stage incl. cleanups registered by cleanups (seed '
+        'C14-h: `if last_exception:` in clean_up_done); the decoder maps them to the same Exc as the truthy instance: the model never looks',
+        'cleanups are registered with positional and keyword arguments: none, or one whose name cycles (by registration number + timeout) '
+        'through f, fn, function, self, args, kwargs, x plus one whose name cycles through the further names of harness/kwnames.py - the '
+        'parameter names, read with inspect from the tree under test, of every function the arguments travel through (addCleanup, '
+        '_run_cleanups, _run_user of the three runners, maybeDeferred, _got_user_exception, _got_user_failure; on the unchanged code: '
+        'result, callable, key, arguments, keywordArguments, exc_info, tb_label, failure), so that a renamed parameter is followed; the '
+        'cleanup checks that it receives exactly them; the model ignores arguments',
         'LIMIT OF THE MODEL (audit C14 v1): an interrupt is "reactor.stop() requested at an instant of virtual time" (a delayed call). The '
         'runtime behaviour it cannot exhibit: a real SIGINT landing in the reactor iteration in which the run ends (while a synchronous '
         'stage runs, inside the delayed call that fires the last Deferred, or so shortly before it / before the timeout call that the '
@@ -279,15 +318,14 @@ class C14(Prop):
         def register(case, cleanups):
             # cleanups are registered with positional AND keyword arguments; the keyword's name cycles through names that collide
             # with parameters of the functions the arguments travel through (maybeDeferred(f, ...), _run_user(function, ...),
-            # addCleanup(fn, ...)): cleanup number n of a run with timeout T gets CLEANUP_KW[(n + T) % len(CLEANUP_KW)]
+            # addCleanup(fn, ...)): cleanup number n of a run with timeout T gets cleanup_kws(n, T) - none, or a fixed name and a name read
+            # from the signatures of the tree under test
             for c in cleanups:
                 n = next(numbering)
-                kw = CLEANUP_KW[(n + T) % len(CLEANUP_KW)]
-                case.addCleanup(do_cleanup, case, ['cleanup', n], c, **({kw: ('kw', n)} if kw else {}))
+                case.addCleanup(do_cleanup, case, ['cleanup', n], c, **{kw: ('kw', kw, n) for kw in cleanup_kws(n, T)})
 
-        def do_cleanup(case, name, stage, **kwargs):
-            kw = CLEANUP_KW[(name[1] + T) % len(CLEANUP_KW)]
-            if kwargs != ({kw: ('kw', name[1])} if kw else {}):
+        def do_cleanup(case, name, stage, /, **kwargs):
+            if kwargs != {kw: ('kw', kw, name[1]) for kw in cleanup_kws(name[1], T)}:
                 raise AssertionError('cleanup %r called with keyword arguments %r' % (name, kwargs))
             return do(case, name, stage)
 
@@ -403,13 +441,15 @@ class C14(Prop):
 
     def _exc(self, case, k, name):
         import unittest
+        k, _, truth = k.partition('-')
+        truth = truth and '-' + truth
         if k == 'err':
-            return ValueError(str(name))
+            return falsy(ValueError, truth)(str(name))
         if k == 'fail':
-            return case.failureException(str(name))
+            return falsy(case.failureException, truth)(str(name))
         if k == 'skip':
-            return unittest.SkipTest(str(name))
-        e = KeyboardInterrupt() if k == 'ki' else SystemExit(3) if k == 'exit' else GeneratorExit()
+            return falsy(unittest.SkipTest, truth)(str(name))
+        e = falsy(KeyboardInterrupt, truth)() if k == 'ki' else falsy(SystemExit, truth)(3) if k == 'exit' else falsy(GeneratorExit, truth)()
         e.verif_generated = True
         return e
 
@@ -445,7 +485,28 @@ class C14(Prop):
         return 'logerr' if rng.random() < 0.25 else ['logerr', rng.choice(self.ROUTES)]
 
     def corpus(self):
-        return Prop.corpus(self) + self.real_inputs(True) + self.value_grid() + self.log_grid()
+        return Prop.corpus(self) + self.real_inputs(True) + self.value_grid() + self.log_grid() + self.falsy_grid()
+
+    def falsy_grid(self):
+        """an exception whose instance is falsy is an exception: kind x (__bool__ | __len__) x (raised | Deferred already failed | Deferred
+        failing later) x (setUp | the test method | tearDown | the first-registered cleanup | the last-registered cleanup | a cleanup
+        registered by a cleanup) x runner variant.  The first-registered cleanup is the LAST one to fail: its exception is what
+        _run_cleanups hands to the chain (seed C14-h tested its truth value)"""
+        st = self._st
+        out = []
+        for k in EXC + UNCLAIMED:
+            for truth in TRUTH[1:]:
+                for beh in (['raise', k + truth], ['faild', 0, k + truth], ['faild', 2, k + truth]):
+                    for where in range(6):
+                        b = [beh if where == i else 'ret' for i in range(6)]
+                        for broken in (False, True):
+                            out.append([6, [], broken, True, True, 0, st(b[0]),
+                                        st(b[1], cleanups=[st(b[3]), st('ret', cleanups=[st(b[5])]), st(b[4])]), st(b[2])])
+        # a truthy failure of a later-registered (= earlier run) cleanup must not be swallowed by a falsy one after it, nor the reverse
+        for a, b in (('err', 'err-nolen'), ('err-nobool', 'err'), ('err-nolen', 'fail-nobool'), ('ki-nobool', 'err-nolen')):
+            for mode in (lambda k: ['raise', k], lambda k: ['faild', 1, k]):
+                out.append([6, [], False, True, True, 0, st('ret'), st('ret', cleanups=[st(mode(a)), st(mode(b))]), st('ret')])
+        return out
 
     def log_grid(self):
         """an error logged to Twisted and left unflushed fails the test whatever the route it takes into the log and whatever the
@@ -500,7 +561,7 @@ class C14(Prop):
                 sides.append('expect')
         k = rng.random()
         delay = rng.choice([0, 0, 1, 1, 2, 3, 4])
-        exc = lambda: rng.choice(EXC + EXC + UNCLAIMED)
+        exc = lambda: rng.choice(EXC + EXC + UNCLAIMED) + rng.choice(TRUTH + TRUTH[:1])        # half of them falsy instances
         if clean:
             beh = 'ret' if k < 0.45 else ['fire', delay] if k < 0.93 else ['raise', exc()] if k < 0.96 else \
                 ['faild', delay, exc()] if k < 0.985 else 'never'
@@ -578,11 +639,12 @@ class C14(Prop):
             elif flaw == 'junk':
                 st[1].append(['junk', rng.choice([total + 1, T, T + 1, 9])])
             elif flaw == 'raise':
-                st[2] = ['raise', rng.choice(EXC)]
+                st[2] = ['raise', rng.choice(EXC) + rng.choice(TRUTH)]
             elif flaw == 'unclaimed':
-                st[2] = rng.choice([['raise', rng.choice(UNCLAIMED)], ['faild', rng.choice([0, 1, 2]), rng.choice(UNCLAIMED)]])
+                st[2] = rng.choice([['raise', rng.choice(UNCLAIMED) + rng.choice(TRUTH)],
+                                    ['faild', rng.choice([0, 1, 2]), rng.choice(UNCLAIMED) + rng.choice(TRUTH)]])
             elif flaw == 'faild':
-                st[2] = ['faild', rng.choice([0, 1, 2]), rng.choice(EXC)]
+                st[2] = ['faild', rng.choice([0, 1, 2]), rng.choice(EXC) + rng.choice(TRUTH)]
             elif flaw == 'never':
                 st[2] = 'never'
             else:
@@ -590,7 +652,7 @@ class C14(Prop):
         return [T, stops, rng.random() < 0.3, rng.random() < 0.7, rng.random() < 0.7, rng.choice([0, 1, 2])] + prog
 
     BEHS = ['ret', ['raise', 'err'], ['raise', 'skip'], ['fire', 2], ['fire', 0], ['faild', 2, 'err'], 'never']
-    BEHS2 = ['ret', ['raise', 'ki'], ['raise', 'err'], ['fire', 2], ['faild', 2, 'exit']]
+    BEHS2 = ['ret', ['raise', 'ki'], ['raise', 'err'], ['raise', 'err-nolen'], ['fire', 2], ['faild', 2, 'exit']]
 
     def enumerate(self, tier):
         for inp in self.real_inputs(False):
@@ -622,9 +684,11 @@ class C14(Prop):
              'suppress=%s' % suppress, 'store=%s' % store, 'observers=%d' % n_obs, 'stops=%d' % len(stops),
              'cleanups=%d' % min(len(stages) - 3, 6), 'cleanup-nesting=%d' % (max(self.depth(m) for m in inp[6:9]) - 1)]
         for n in range(len(stages) - 3):
-            f.append('cleanup-keyword:' + str(CLEANUP_KW[(n + T) % len(CLEANUP_KW)]))
+            f.extend('cleanup-keyword:' + k for k in cleanup_kws(n, T) or ['None'])
         for s in stages:
-            f.append('beh:' + (s[2] if isinstance(s[2], str) else s[2][0] + ('-' + s[2][-1] if s[2][0] in ('raise', 'faild') else '')))
+            f.append('beh:' + (s[2] if isinstance(s[2], str) else s[2][0] + ('-' + base_of(s[2][-1]) if s[2][0] in ('raise', 'faild') else '')))
+            if isinstance(s[2], list) and s[2][0] in ('raise', 'faild'):
+                f.append('exception-instance:' + (s[2][-1].partition('-')[2] or 'truthy'))
             if isinstance(s[2], list) and ((s[2][0] == 'ret') or (s[2][0] == 'fire' and len(s[2]) > 2)):
                 f.append('stage-value:' + (VALUE_NAMES[s[2][-1]] if s[2][-1] < len(VALUES) else 'int'))
             for side in s[1]:
@@ -688,10 +752,15 @@ class C14(Prop):
         if isinstance(beh, list) and beh[0] == 'faild':
             yield [cleanups, sides, ['raise', beh[2]]]
             yield [cleanups, sides, ['fire', beh[1]]]
-        if isinstance(beh, list) and beh[-1] in ('exit', 'genexit'):
-            yield [cleanups, sides, beh[:-1] + ['ki']]
-        if isinstance(beh, list) and beh[-1] in ('fail', 'skip'):
-            yield [cleanups, sides, beh[:-1] + ['err']]
+        if isinstance(beh, list) and beh[0] in ('raise', 'faild'):
+            k, _, truth = beh[-1].partition('-')
+            if truth:
+                yield [cleanups, sides, beh[:-1] + [k]]                     # a truthy instance of the same class
+                truth = '-' + truth
+            if k in ('exit', 'genexit'):
+                yield [cleanups, sides, beh[:-1] + ['ki' + truth]]
+            if k in ('fail', 'skip'):
+                yield [cleanups, sides, beh[:-1] + ['err' + truth]]
 
 
 PROP = C14()
